@@ -52,6 +52,17 @@ PROPS['C03'] = {
                   'where the failing inputs (quotient overflow, MIN / -1) are a vanishing fraction of the domain',
     'level_note': 'trusted: Kani/CBMC/solver soundness, oracle in 64-bit arithmetic written from the Intel manual',
 }
+PROPS['C04'] = {
+    'explanation': 'the ten memory_addr productions (with their leaf actions), byte_label/word_label, byte/word register '
+                   'access and LEA, against (segment*16 + 16-bit offset sum) mod 2^20 with the architectural default segment',
+    'bounds': 'loop-free: every addressing shape x base x index x override x displacement x register and memory state',
+    'outside': 'reads/writes AT the address are the B-harnesses of C01/C02/C05 (they take the address symbolic); parser driver validated natively',
+    'backends': [(r'label', ['sat', 'z3'])],
+    'assumptions': ['label table = association list under Kani (std HashMap cannot be model checked); one label named v'],
+    'level_text': 'bounded model checking without a bound: the returned address is compared with the architectural '
+                  'formula for all 2^16 values of every register involved, which is where offset and 1 MiB wrap-arounds live',
+    'level_note': 'trusted: Kani/CBMC/solver soundness; LEA with a non-DS segment is a known finding',
+}
 
 NOT_APPLICABLE = {
     'C13': 'macro definition/use is regex::Regex + a recursive call of the generated parser on heap strings; Kani cannot compile the regex engine or the LALRPOP driver (compiler ICE), and a hand model of the substitution would not be the real code',
